@@ -29,7 +29,14 @@ pub struct Env {
     pub trace: Vec<Choice>,
     /// set when a replayed prefix does not fit the choice points met
     pub diverged: Option<String>,
+    /// choice points beyond this depth are not branched on: the RNG then hands
+    /// out a fixed mid-range word (rejection-sampling loops on extreme words
+    /// would otherwise make the tree infinite); such leaves are flagged
+    pub horizon: usize,
+    pub beyond_horizon: bool,
 }
+
+pub const DEFAULT_HORIZON: usize = 24;
 
 impl Env {
     pub fn new(prefix: Vec<Choice>) -> Env {
@@ -37,6 +44,16 @@ impl Env {
             prefix,
             trace: Vec::new(),
             diverged: None,
+            horizon: DEFAULT_HORIZON,
+            beyond_horizon: false,
+        }
+    }
+    pub fn past_horizon(&mut self) -> bool {
+        if self.trace.len() >= self.horizon {
+            self.beyond_horizon = true;
+            true
+        } else {
+            false
         }
     }
     pub fn from_picks(picks: &[u32]) -> Env {
@@ -52,6 +69,8 @@ impl Env {
                 .collect(),
             trace: Vec::new(),
             diverged: None,
+            horizon: DEFAULT_HORIZON,
+            beyond_horizon: false,
         }
     }
     pub fn choose(&mut self, width: u32, kind: Kind) -> u32 {
@@ -114,6 +133,8 @@ pub struct ExploreStats {
     pub total_weight_is_one: bool,
     pub diverged: Option<String>,
     pub capped: bool,
+    /// executions that ran past the horizon (their tails were not branched on)
+    pub beyond_horizon: u64,
 }
 
 /// Enumerate every complete execution of `scenario`.  `visit` gets the trace
@@ -142,6 +163,9 @@ pub fn explore<O>(
         }
         let w = env.weight();
         total = total.add(w);
+        if env.beyond_horizon {
+            stats.beyond_horizon += 1;
+        }
         stats.leaves += 1;
         stats.choice_points += env.trace.len() as u64;
         stats.max_depth = stats.max_depth.max(env.trace.len());
